@@ -56,7 +56,7 @@ Section L.
       (ac_received : received P = ROk (attr_ids, unrev_ids, pred_ids))
       (ac_compare : compare_referents R P = ROk tt)
       (ac_values : check_revealed_values cfg R P = ROk tt)
-      (ac_restr : check_restrictions cfg R P cx (unrev_ids ++ attr_ids) pred_ids = ROk tt)
+      (ac_restr : check_restrictions cfg R P cx (if f_restr_revealed_first cfg then attr_ids ++ unrev_ids else unrev_ids ++ attr_ids) pred_ids = ROk tt)
       (ac_reg : build_regmap cx = ROk regmap)
       (ac_loop : loop_ids cfg R P cx regmap (p_ids P) 0 = ROk subs)
       (ac_len : lenZ (p_proofs P) = lenZ subs)
